@@ -1052,6 +1052,24 @@ def common_summaries():
                 outs.append((s, ('CALL', c[1], [] if is_opt else [payload0(ex, s, c[0], 1)], None)))
         return outs
 
+    @reg(r'^(std::option::)?Option::<(.*)>::unwrap_or_default$')
+    def o_unwrap_or_default(ex, st, fn, argv):
+        ty = re.match(r'^(?:std::option::)?Option::<(.*)>::unwrap_or_default$', fn).group(1)
+        ty = subst(ty, ex.cur_bind(st)) if ty in ex.cur_bind(st) else ty
+        if ty in ('String', 'std::string::String'):
+            dflt = Str(str_lit('""'))
+        elif ty in INT_TYPES:
+            dflt = Int(0, INT_TYPES[ty][0], INT_TYPES[ty][1])
+        elif ty == 'bool':
+            dflt = Bool(z3.BoolVal(False))
+        else:
+            raise Unsupported(fn)
+        o = as_enum(ex, st, argv[0])
+        outs = []
+        for (s, c, some) in ex.fork_on(st, o.disc_bv() == 1, (o,)):
+            outs.append((s, payload0(ex, s, c[0], 1) if some else dflt))
+        return outs
+
     @reg(r'^(std::option::)?Option::<.*>::or_else::<')
     def o_or_else(ex, st, fn, argv):
         """the option itself if Some, else whatever the closure returns"""
